@@ -582,4 +582,5 @@ LEVEL_NOTE = ("Validated by the correspondence check only (no theorem): the last
               "sectionNames(), plain names without '/', operator[]= and reopen are in the model and in K but the persist theorem is stated "
               "for set(\"section/key\") and const operator[]; keys outside KeyOK (containing '/', '=' or starting below '0') and values with "
               "outer blanks are K-only. Known finding csv-tiny-number (|x| < ~1e-293 read back wrong) is excluded from the generator and "
-              "probed. Trusted: Lean kernel, harness/c18.cpp, the generator; libc fgets/feof, strtod, snprintf %.15g, pow as listed.")
+              "probed. Not modelled: IniFile::section()/arraysize()/array() (deprecated), write(otherName); TabularDataFile ARFF output, "
+              "readAs(), setSeparator/setDecimal/useQuotes/flushEvery. Trusted: Lean kernel, harness/c18.cpp, the generator; libc fgets/feof, strtod, snprintf %.15g, pow as listed.")
